@@ -41,7 +41,7 @@ type Fold struct {
 	// PlainAckMaybe: a damaged plain ACK on the probed connection was read; the run may end early
 	// with NotSupportedError or carry on.
 	PlainAckMaybe bool
-	Ambiguous int
+	Ambiguous     int
 	// LowestDest is the lowest TTL holding a destination reply (0: none).
 	LowestDest int
 }
